@@ -196,6 +196,22 @@ func (ck *Check) indexSite(ctx *Ctx, in ssa.Instruction, x, idx ssa.Value, mkKey
 		ck.undecided("C20.R1", key, ck.P.instrPos(in), funcID(fn), "index within bounds on every path", err.Error())
 		return
 	}
+	if !okv {
+		// an index that is a parameter (an executor handed the position a search found): decided with
+		// the arguments and path conditions of every static caller
+		mk := func(cx *Ctx) []LinFact {
+			xt, it := cx.Term(x), cx.Term(idx)
+			return []LinFact{
+				{A: zeroTerm(types.Typ[types.Int]), B: it, K: 0, Text: "0 ≤ index"},
+				{A: it, B: lenOf("len", xt), K: -1, Text: "index < len"},
+			}
+		}
+		if lok, lwhy, _ := ck.liftedEntails(fn, in, mk); lok {
+			okv = true
+		} else if lwhy != "" {
+			why = lwhy
+		}
+	}
 	ck.cond(okv, "C20.R1", key, ck.P.instrPos(in), funcID(fn), "PC ⇒ 0 ≤ index < len("+xt.String()+")", it.String(), "index out of range panics the scan: "+why)
 }
 
